@@ -22,6 +22,7 @@ type job struct {
 	Variants int    `json:"variants"`
 	NBytes   int    `json:"nbytes"`
 	Idx      int    `json:"idx"`
+	From     int    `json:"from"` // gossip: first scenario to run (a restarted child continues after a crash)
 }
 
 func loadEdges(path, class string) ([]*edge, error) {
@@ -39,11 +40,12 @@ func loadEdges(path, class string) ([]*edge, error) {
 			Act  json.RawMessage `json:"act"`
 			To   json.RawMessage `json:"to"`
 			Run  bool            `json:"run"`
+			Cf   classFacts      `json:"cf"`
 		}
 		if err := json.Unmarshal([]byte(l), &raw); err != nil {
 			return nil, fmt.Errorf("edge line: %v", err)
 		}
-		e := &edge{Run: raw.Run}
+		e := &edge{Run: raw.Run, Cf: raw.Cf}
 		if err := json.Unmarshal(raw.From, &e.From); err != nil {
 			return nil, err
 		}
@@ -94,6 +96,14 @@ func classChild(c *core.Ctx, j job) {
 		finish()
 		return
 	}
+	// the specification's own record of the class must describe the node the harness built
+	if len(edges) > 0 {
+		if got, want := rn.b.facts(), edges[0].Cf; !cfMatch(got, want) {
+			res.Infra = fmt.Sprintf("class %s: the specification's class record %+v does not describe the node built (%+v)", j.Class, want, got)
+			finish()
+			return
+		}
+	}
 	// group the edges by the model state they start from
 	var base, q1, q2 []*edge
 	claims := map[string][]*edge{}
@@ -143,7 +153,7 @@ func classChild(c *core.Ctx, j job) {
 		if _, err := run(e, k); fail(err) {
 			return
 		}
-		if e.Act.Eff == "alloc" && e.Act.M.Sig == "bad" {
+		if r := e.Act.M.R; e.Act.Eff == "alloc" && e.Act.M.Sig == "bad" && (r == sNEG || r == sFAR || r == sMAXI) { // symbolic rounds are fresh ones
 			allocEdges = append(allocEdges, e)
 		}
 		if e.Act.Eff == "claim" {
@@ -241,6 +251,13 @@ func classChild(c *core.Ctx, j job) {
 		}
 	}
 	// (E) the cluster still commits
+	if rn.b.wal != nil {
+		res.WALEntries += rn.b.wal.entries
+		res.WALTooBig += rn.b.wal.tooBig
+		if rn.b.wal.maxBytes > res.WALMaxBytes {
+			res.WALMaxBytes = rn.b.wal.maxBytes
+		}
+	}
 	to, err := rn.liveness()
 	res.LiveTo = to
 	if err != nil {
@@ -251,4 +268,28 @@ func classChild(c *core.Ctx, j job) {
 		}
 	}
 	finish()
+}
+
+// classFacts is the class record of the specification as exported with every edge.
+type classFacts struct {
+	H       int  `json:"h"`
+	R       int  `json:"r"`
+	Step    int  `json:"step"`
+	Lc      bool `json:"lc"`
+	Prop    bool `json:"prop"`
+	Exp     bool `json:"exp"`
+	NHave   int  `json:"nhave"`
+	Blk     bool `json:"blk"`
+	Stalled bool `json:"stalled"`
+}
+
+func cfMatch(got facts, want classFacts) bool {
+	if int(got.H) != want.H || got.R != want.R || got.Step != want.Step || got.LastCommit != want.Lc || got.Proposal != want.Prop ||
+		got.Expecting != want.Exp || got.Block != want.Blk || got.Stalled != want.Stalled {
+		return false
+	}
+	if want.Exp && want.NHave < sNP { // an incomplete set: exactly that many parts; a complete one: all of them
+		return got.Have == want.NHave
+	}
+	return !want.Exp || got.Block || got.Have > 0
 }
